@@ -419,3 +419,34 @@ _setup2 = setup
 def setup(E):  # noqa: F811
     _setup2(E)
     _more_scopes(E)
+
+
+def _proxy_contracts(E):
+    """EntryProxy read accessors: a cell whose storage slot holds None (never written) reads as infinitely bad with no tags, and
+    an existing cell reads as its Entry.  `_get_real` (the walk through the nested dict/list storage) is the assumed part, validated
+    by the bounded stand-in `dynamic_programming:Table-proxies`; the ghost fields name what it returns."""
+    add = E.registry.add
+    E.declare_class("ProxiedTable", {"merge_policy": "MergePolicy", "retention_policy": "RetentionPolicy"})
+    E.declare_class("EntryProxy", {"_parent": "ProxiedTable", "g_present": "Bool", "g_real": "Entry"})
+    add(Contract(
+        f"{M}:EntryProxy._get_real", kind="assumed", params={"self": "EntryProxy"}, returns="Opt[Entry]",
+        ensures=["(result is not None) == self.g_present",
+                 "implies(self.g_present, result._value == self.g_real._value and result._infos == self.g_real._infos)"],
+        props=["C16"],
+        note="storage walk `for item in self._key: entry = entry[item]` over nested dict/list dimensions: not modelled; the ghost fields g_present/g_real name its result",
+    ))
+    add(Contract(f"{M}:EntryProxy.value", params={"self": "EntryProxy"}, returns="Ext",
+                 ensures=["result == (self.g_real._value if self.g_present else worst(self._parent.merge_policy))"], props=["C16"],
+                 canary="not self.g_present and self._parent.merge_policy == MergePolicy.MAX"))
+    add(Contract(f"{M}:EntryProxy.infos", params={"self": "EntryProxy"}, returns="Set[Tag]",
+                 ensures=["forall(lambda t: (t in result) == (self.g_present and t in self.g_real._infos), Tag)"], props=["C16"]))
+    add(Contract(f"{M}:EntryProxy.is_infinite", params={"self": "EntryProxy"}, returns="Bool",
+                 ensures=["result == (not self.g_present or not is_fin(self.g_real._value))"], props=["C16"]))
+
+
+_setup3 = setup
+
+
+def setup(E):  # noqa: F811
+    _setup3(E)
+    _proxy_contracts(E)
